@@ -3,7 +3,7 @@ import re
 from vlib.ref import mc6809 as R
 from vlib.forms import Form, traits_of, wrap, REGS
 
-TOKENS = ["A", "B", "D", "X", "Y", "U", "S", "PC", "PCR", "CC", "DP", "Z", "W", "V", "L", "0", "1", "5", "15", "16", "17", "127",
+TOKENS = ["A", "B", "D", "X", "Y", "U", "S", "PC", "PCR", "CC", "DP", "Z", "W", "V", "L", "a", "b", "d", "x", "y", "u", "s", "pcr", "pc", "cc", "0", "1", "5", "15", "16", "17", "127",
           "128", "129", "255", "256", "32767", "32768", "65535", "65536", "70000", "-1", "-16", "-17", "-128", "-129",
           "$", "$5", "$05", "$005", "$0005", "$FF", "$100", "$FFFF", "$12345", "%", "%00000101", "%0000000000000101",
           "%101", "'A", "#", "<", ">", "[", "]", ",", ",", ",", "+", "++", "-", "--", "*", "/", "@", ".", "(", ")", "\"",
@@ -83,6 +83,33 @@ def illtyped_forms():
         if set(m) == {"inh"}:
             for bad in ("5", "#5", ",X", "L", "$1234", "[5]", "A", "A,B"):
                 yield Form(src, canon, "inh.with-operand", bad, None, base)
+
+
+def lowercase_forms():
+    """statements written with lower-case register names: the tool may reject them, but if it accepts one it must mean the
+    same register (C12: an unknown register is rejected rather than encoded as something else)"""
+    for src, canon in (("LDA", "LDA"), ("LDX", "LDX"), ("LEAY", "LEAY"), ("STB", "STB"), ("CMPU", "CMPU")):
+        base = traits_of(canon)
+        for reg in REGS:
+            lo = reg.lower()
+            for ind in (False, True):
+                tr = dict(base, ind=ind)
+                for opnd, exp in ((",%s" % lo, {"kind": "off", "off": 0}), ("5,%s" % lo, {"kind": "off", "off": 5}), ("-100,%s" % lo, {"kind": "off", "off": -100}),
+                                  ("1000,%s" % lo, {"kind": "off", "off": 1000}), (",%s++" % lo, {"kind": "inc2"}), (",--%s" % lo, {"kind": "dec2"}),
+                                  ("A,%s" % lo, {"kind": "acc", "acc": "A"}), ("D,%s" % lo, {"kind": "acc", "acc": "D"})):
+                    e = dict(exp, mode="idx", reg=reg, ind=ind)
+                    yield Form(src, canon, "idx.lowercase-register", wrap(ind, opnd), e, tr)
+                for opnd, exp in (("a,%s" % reg, {"kind": "acc", "acc": "A"}), ("b,%s" % lo, {"kind": "acc", "acc": "B"}), ("d,%s" % reg, {"kind": "acc", "acc": "D"})):
+                    yield Form(src, canon, "idx.lowercase-register", wrap(ind, opnd), dict(exp, mode="idx", reg=reg, ind=ind), tr)
+        for ind in (False, True):
+            yield Form(src, canon, "idx.lowercase-register", wrap(ind, "$10,pcr"), {"mode": "idx", "kind": "pcr", "off": 16, "ind": ind}, dict(base, ind=ind))
+            yield Form(src, canon, "idx.lowercase-register", wrap(ind, "300,Pcr"), {"mode": "idx", "kind": "pcr", "off": 300, "ind": ind}, dict(base, ind=ind))
+    for mn in ("PSHS", "PULU"):
+        for regs, want in (("a,b", ["A", "B"]), ("x,Y", ["X", "Y"]), ("cc,dp", ["CC", "DP"]), ("pc", ["PC"]), ("d", ["A", "B"])):
+            yield Form(mn, mn, "reglist.lowercase-register", regs, {"mode": "reglist", "regs": sorted(want)}, {})
+    for mn in ("TFR", "EXG"):
+        for a, b in (("a", "b"), ("x", "Y"), ("D", "u"), ("cc", "dp")):
+            yield Form(mn, mn, "regpair.lowercase-register", "%s,%s" % (a, b), {"mode": "regpair", "r0": a.upper(), "r1": b.upper()}, {})
 
 
 PRELUDE = ["V EQU 5\n", "W EQU $1234\n", " ORG $2000\n", "L NOP\n"]
